@@ -49,6 +49,7 @@ def run(ctx):
     orc = build_oracles()
     models = ["lennard_jones", "inverse_power_law", "harmonic_hertz"]
     npts = ctx.n(7000, 30000)
+    fam = {}
     for i in range(npts):
         rng = ctx.rng()
         model = models[i % 3]
@@ -58,11 +59,27 @@ def run(ctx):
         n = float(rng.uniform(1, 36)) if rng.random() < 0.7 else float(rng.integers(1, 37))
         al = float(rng.choice([2.0, 2.5, 3.0])) if rng.random() < 0.4 else float(rng.uniform(1.05, 4.0))
         shift = bool(rng.random() < 0.5)
+        # history: families of consecutive evaluations that share (epsilon, sigma, r_c) and differ in model / exponent / prefactor /
+        # distance -- what a Hessian assembly does for one pair type; anything remembered between calls under an incomplete key shows here
+        in_family = (i % 12) < 6
+        if in_family and (i % 12) > 0 and fam:
+            eps_, sig, rcr = fam["eps"], fam["sig"], fam["rcr"]
+            shift = True if rng.random() < 0.8 else shift
+            model = models[int(rng.integers(0, 3))] if rng.random() < 0.5 else fam["model"]
+        else:
+            rcr = float(rng.uniform(1.05, 4.0))
+            fam = {"eps": eps_, "sig": sig, "rcr": rcr, "model": model if model != "harmonic_hertz" else "inverse_power_law"}
+        beyond = False
         if model == "harmonic_hertz":
             rc = sig
             r = sig * float(rng.uniform(0.05, 0.98))
+            if rng.random() < 0.3:
+                # beyond contact the documented expression is still a polynomial for an integer exponent
+                al = float(rng.choice([2.0, 3.0, 4.0]))
+                r = sig * float(rng.uniform(1.02, 1.6))
+                beyond = True
         else:
-            rc = sig * float(rng.uniform(1.05, 4.0))
+            rc = sig * rcr
             r = sig * float(rng.uniform(0.5, rc / sig))
         pars = {"model": model, "r": r, "epsilon": eps_, "sigma": sig, "r_c": rc, "shift": shift, "n": n, "A": A, "alpha": al}
         ip = InteractionParams(model_name=getattr(ModelName, model), ipl_n=n, ipl_A=A, harmonic_hertz_alpha=al)
@@ -74,7 +91,8 @@ def run(ctx):
             f = {"lennard_jones": lambda: pi.lennard_jones(), "inverse_power_law": lambda: pi.inverse_power_law(n=n, A=A),
                  "harmonic_hertz": lambda: pi.harmonic_hertz(alpha=al)}[model]
             ok, got = ctx.call(f"{model}/method", f, data=pars)
-        ctx.case(f"{model}/{'shift' if shift else 'noshift'}/{'caller' if via_caller else 'method'}", model, r, eps_, sig, rc, shift, n, A, al,
+        ctx.case(f"{model}/{'shift' if shift else 'noshift'}/{'caller' if via_caller else 'method'}" + ("/beyond_contact" if beyond else "") +
+                 ("/family" if in_family and (i % 12) > 0 else ""), model, r, eps_, sig, rc, shift, n, A, al,
                  nontrivial=True, sample=pars)
         if not ok:
             continue
